@@ -88,6 +88,9 @@ def features(rng):
         # a nested PLAIN dataclass one of whose annotations names a class that is never defined (TYPE_CHECKING-only
         # imports look like that); the data never reaches it
         "ghost": rng.random() < 0.25,
+        # a nested PLAIN dataclass shared by two holders (its methods are compiled by whichever holder comes first - or
+        # by both at once, from two threads)
+        "plain_shared": rng.random() < 0.4,
         # codec objects with a default dialect used between the classes' own calls
         "codec_ops": rng.random() < 0.3,
         # class-level orjson options, different per class: honoured whichever class is compiled first
@@ -150,8 +153,17 @@ def blocks(ft, mode):
         order.append("Ghost")
         holder.append("    ghosts: List[Ghost] = field(default_factory=list)")
         holder.append("    ghost: Optional[Ghost] = None")
+    if ft.get("plain_shared"):
+        out["Addr"] = ("@dataclass\nclass Addr:\n    street: str = ''\n    since: Optional[datetime.date] = None\n    tags: List[str] = field(default_factory=list)\n"
+                       "@dataclass\nclass Geo:\n    lat: float = 0.0\n    addr: Optional[Addr] = None\n")
+        order.append("Addr")
+        holder.append("    addr: Optional[Addr] = None")
+        holder.append("    geo: Optional[Geo] = None")
     out["Holder"] = "\n".join(holder) + "\n" + cfg(d_outer, "Holder")
     order.append("Holder")
+    if ft.get("plain_shared"):
+        out["Holder3"] = "@dataclass\n" + f"class Holder3({base}):\n    addrs: List[Addr] = field(default_factory=list)\n    geo: Optional[Geo] = None\n    main: Optional[Addr] = None\n" + cfg(d_outer)
+        order.append("Holder3")
     if ft["generic"]:
         # a second holder whose only specialisation uses the same-named class of the other module: with lazy
         # compilation the order of FIRST CALLS decides which specialisation is compiled first
@@ -182,7 +194,7 @@ def build(ft, mode):
         # users of a class are defined BEFORE the class: annotations are unresolved at class creation
         seq = ["Holder"] + [n for n in ("Child",) if n in out]
         # Child(Node) needs its base first: define Node before Child but after Holder
-        seq = [n for n in ("Holder2",) if n in out] + ["Holder", "Node"] + [n for n in ("Child",) if n in out] + [n for n in ("Page",) if n in out] + ["Inner"] + [n for n in ("Ghost",) if n in out]
+        seq = [n for n in ("Holder3", "Holder2") if n in out] + ["Holder", "Node"] + [n for n in ("Child",) if n in out] + [n for n in ("Page",) if n in out] + ["Inner"] + [n for n in ("Ghost", "Addr") if n in out]
         if "Page" in out:
             # a generic base class must exist before it is subscripted only at runtime use; annotations are strings
             pass
@@ -215,6 +227,11 @@ def make_values(mod, ft):
     if ft["child"]:
         vals["Child"] = mod.Child(3, inner, extra=D(2022, 2, 2), tagv=7)
         h.child = vals["Child"]
+    if ft.get("plain_shared"):
+        a = mod.Addr("Main St", D(2011, 11, 11), ["x"])
+        h.addr = a
+        h.geo = mod.Geo(1.5, mod.Addr("Side", None, []))
+        vals["Holder3"] = mod.Holder3([a, mod.Addr("B")], mod.Geo(2.5, a), mod.Addr("C", D(2000, 1, 1)))
     vals["Holder"] = h
     if ft["generic"]:
         vals["Holder2"] = mod.Holder2(mod.Page([mod.other.Inner("z")], mod.other.Inner("y", datetime.datetime(2001, 2, 3, 4, 5, 6))), 7)
@@ -232,10 +249,10 @@ def op_list(ft):
         fmts.append(("json", "to_jsonb", "from_json"))
     if "msgpack" in ft["mixin"]:
         fmts.append(("msgpack", "to_msgpack", "from_msgpack"))
-    classes = ["Holder", "Node", "Inner"] + (["Child"] if ft["child"] else []) + (["Holder2"] if ft["generic"] else [])
+    classes = ["Holder", "Node", "Inner"] + (["Child"] if ft["child"] else []) + (["Holder2"] if ft["generic"] else []) + (["Holder3"] if ft.get("plain_shared") else [])
     ops = []
     for c in classes:
-        has_d = ft["dialect"] == "all" or (ft["dialect"] == "outer-only" and c in ("Holder", "Holder2"))
+        has_d = ft["dialect"] == "all" or (ft["dialect"] == "outer-only" and c in ("Holder", "Holder2", "Holder3"))
         for f, to_m, from_m in fmts:
             for dial in ([False, True] if has_d else [False]):
                 ops.append((c, to_m, from_m, "to", dial, ""))
